@@ -9,6 +9,7 @@ mod oracle_tx;
 mod oracle_twin;
 mod plan;
 mod prng;
+mod probes;
 mod props;
 mod runner;
 mod server;
